@@ -165,3 +165,49 @@ def analyse_poll(mir_text, variants=("Running", "Interrupted", "Suspended", "Pau
     if "(error" in p.stdout or res not in ("sat", "unsat"):
         res = "error"
     return {"res": res, "witness": wit, "arm": arm, "controller_writes_in_poll": writes, "dt": time.time() - t0}
+
+
+# E3r (part of C20): a fixed-size host shape is extracted from a script list only after the list's length was tested.
+# `<(A, B) as FromSteelVal>::from_steelval` (and any further tuple impl of conversions.rs): every path to the `Ok(..)`
+# result passes a branch on a comparison of the list's `len()` with a constant.
+def analyse_tuple_len(mir_text):
+    funcs = mir.parse(mir_text, lambda n: n.endswith("::from_steelval") and "conversions" in n)
+    out = []
+    for key, f in funcs.items():
+        if not re.search(r"Result<\((?:[A-Z]\w*, )+[A-Z]\w*\), ", f.ret):
+            continue
+        blocks = [b for b in f.blocks.values() if not b.cleanup]
+        ids = {b.n for b in blocks}
+        oks = [b.n for b in blocks if any(re.match(r"_0 = .*Result::<.*>::Ok\(", s) for s in b.stmts)]
+        lens = []
+        for b in blocks:
+            t = b.term
+            if t.get("kind") == "switch":
+                o = mir.origin(f, t["on"])
+                if re.search(r"^\(*(Ne|Eq|Lt|Le|Gt|Ge)\(", o.strip()) and "::len(" in o and "const" in o:
+                    lens.append(b.n)
+        preds = {b.n: [] for b in blocks}
+        for b in blocks:
+            if b.n in lens:
+                continue
+            for s in _succ(b.term):
+                if s in ids:
+                    preds[s].append(b.n)
+        q = ["(set-logic QF_BV)"]
+        for b in blocks:
+            q.append("(declare-const r%d Bool)(declare-const k%d (_ BitVec 16))" % (b.n, b.n))
+        q.append("(assert r0)")
+        for b in blocks:
+            if b.n == 0:
+                continue
+            alts = ["(and r%d (bvult k%d k%d))" % (p, p, b.n) for p in preds[b.n]]
+            q.append("(assert (=> r%d (or false %s)))" % (b.n, " ".join(alts)))
+        q.append("(assert (or false %s))" % " ".join("r%d" % n for n in oks))
+        q.append("(check-sat)")
+        t0 = time.time()
+        p = subprocess.run(["z3", "-in", "-T:30"], input="\n".join(q) + "\n", capture_output=True, text=True)
+        res = p.stdout.strip().split("\n")[0] if p.stdout.strip() else "error"
+        if "(error" in p.stdout or res not in ("sat", "unsat"):
+            res = "error"
+        out.append({"function": f.name[-70:], "shape": re.search(r"Result<(\([^)]*\))", f.ret).group(1), "ok_blocks": oks, "length_tests": lens, "res": res if oks else "error", "dt": time.time() - t0})
+    return out
